@@ -80,13 +80,15 @@ class LDMService:
                 )
                 if ordered_sequences:
                     ordered_search_result = ordered_sequences[0]
-            self.process_notifications(subscription, ordered_search_result)
             data_consumer_its_aid = self.get_data_consumer_its_aid()
             if (
                 subscription.subscription_request.application_id
                 not in data_consumer_its_aid
             ):
+                # the consumer deregistered: drop the subscription without notifying it again
                 subscriptions_to_remove.add(subscription)
+                continue
+            self.process_notifications(subscription, ordered_search_result)
         for subscription in subscriptions_to_remove:
             self.remove_subscription(subscription)
 
